@@ -23,6 +23,7 @@ path "auth/token/create" { capabilities = ["update"] }
 type c04Lease struct {
 	leaseID  string
 	secretID string
+	ns       int // namespace index the lease was issued in (namespaces unit)
 }
 
 type c04Tok struct {
@@ -30,6 +31,7 @@ type c04Tok struct {
 	id, acc  string
 	parent   int // index of parent token in the model, -1 = none (created by root as orphan) / root-created
 	alive    bool
+	batch    bool   // a batch token (no storage entry, no cubbyhole, cannot be revoked itself; dies with its parent)
 	cubbyKey string // physical key of its cubbyhole entry ("" if none)
 	tokLease string // lease id of the token itself
 	leases   []c04Lease
@@ -68,12 +70,17 @@ func (w *c04World) aliveIdx() []int {
 }
 
 // create makes a child of parent (index, or -1 for a root-created orphan).
-func (w *c04World) create(parent int, orphan bool) (*c04Tok, rr) {
+func (w *c04World) create(parent int, orphan bool) (*c04Tok, rr) { return w.createT(parent, orphan, false) }
+
+func (w *c04World) createT(parent int, orphan, batch bool) (*c04Tok, rr) {
 	ptok := w.tc.root
 	if parent >= 0 {
 		ptok = w.toks[parent].id
 	}
 	data := map[string]any{"policies": []string{"default", "c04"}, "ttl": "1h"}
+	if batch {
+		data["type"] = "batch"
+	}
 	if parent < 0 && orphan {
 		data["no_parent"] = true
 	}
@@ -81,11 +88,13 @@ func (w *c04World) create(parent int, orphan bool) (*c04Tok, rr) {
 	if id == "" {
 		return nil, r
 	}
-	tk := &c04Tok{name: fmt.Sprintf("t%d", len(w.toks)), id: id, acc: acc, parent: parent, alive: true}
+	tk := &c04Tok{name: fmt.Sprintf("t%d", len(w.toks)), id: id, acc: acc, parent: parent, alive: true, batch: batch}
 	if parent < 0 {
 		tk.parent = -1
 	}
-	tk.tokLease = w.tokenLeaseID(tk)
+	if !batch {
+		tk.tokLease = w.tokenLeaseID(tk)
+	}
 	w.toks = append(w.toks, tk)
 	return tk, r
 }
@@ -180,12 +189,19 @@ func (w *c04World) revoke(kind string, i int) rr {
 func (w *c04World) applyRevoked(kind string, i int) []int {
 	if kind == "revoke-orphan" {
 		w.toks[i].alive = false
-		for _, tk := range w.toks {
+		dead := []int{i}
+		for j, tk := range w.toks {
 			if tk.parent == i {
+				if tk.batch {
+					// a batch token is valid only while its parent exists, and its leases hang on the parent's index
+					tk.alive = false
+					dead = append(dead, j)
+					continue
+				}
 				tk.parent = -1
 			}
 		}
-		return []int{i}
+		return dead
 	}
 	dead := w.subtree(i)
 	for _, j := range dead {
@@ -282,7 +298,7 @@ func (w *c04World) fork() *c04World {
 // ---------------------------------------------------------------- (a) sequential histories
 
 func TestVerif_C04_Histories(t *testing.T) {
-	rec := verifx.NewRecorder("C04", "histories", "rapid state machine on a fresh in-memory core per case: create child / orphan, write cubbyhole, obtain leased secret, revoke (by id, self, by accessor, revoke-orphan, through the token's lease), restart on the same storage; after every action every token of the model is probed (lookup-self, request to a recording backend, accessor lookup, cubbyhole key in physical storage, lease entries); non-trivial = a successful revocation of a token with >=1 descendant and >=1 lease or cubbyhole entry in the subtree")
+	rec := verifx.NewRecorder("C04", "histories", "rapid state machine on a fresh in-memory core per case: create child / orphan / batch child, write cubbyhole, obtain leased secret, revoke (by id, self, by accessor, revoke-orphan, through the token's lease), restart on the same storage; after every action every token of the model is probed (lookup-self, request to a recording backend, accessor lookup, cubbyhole key in physical storage, lease entries); non-trivial = a successful revocation of a token with >=1 descendant and >=1 lease or cubbyhole entry in the subtree")
 	defer rec.Flush()
 	rapid.Check(t, func(rt *rapid.T) {
 		w := newC04World(t, rapid.Bool().Draw(rt, "transactionalStorage"))
@@ -307,6 +323,9 @@ func TestVerif_C04_Histories(t *testing.T) {
 				parent := -1
 				if rapid.IntRange(0, 3).Draw(rt, "underToken") > 0 {
 					parent = pickAlive("parent")
+					if parent >= 0 && w.toks[parent].batch {
+						parent = -1 // batch tokens cannot create tokens
+					}
 				}
 				orphan := parent < 0 && rapid.Bool().Draw(rt, "orphan")
 				tk, r := w.create(parent, orphan)
@@ -315,10 +334,31 @@ func TestVerif_C04_Histories(t *testing.T) {
 					fail("create-failed", fmt.Sprintf("token creation under live parent %d failed: %v", parent, r))
 				}
 			},
+			// a batch child of a live service token: it and the leases it takes die with the parent
+			"create-batch": func(rt *rapid.T) {
+				if len(w.toks) >= 9 {
+					rt.Skip("enough tokens")
+				}
+				var cands []int
+				for _, i := range w.aliveIdx() {
+					if !w.toks[i].batch {
+						cands = append(cands, i)
+					}
+				}
+				if len(cands) == 0 {
+					rt.Skip("no live service token")
+				}
+				parent := cands[rapid.IntRange(0, len(cands)-1).Draw(rt, "parent")]
+				tk, r := w.createT(parent, false, true)
+				w.logf("create-batch parent=%d -> %v", parent, r)
+				if tk == nil {
+					fail("create-failed", fmt.Sprintf("batch token creation under live parent %d failed: %v", parent, r))
+				}
+			},
 			"cubby": func(rt *rapid.T) {
 				i := pickAlive("tok")
-				if i < 0 {
-					rt.Skip("no live token")
+				if i < 0 || w.toks[i].batch {
+					rt.Skip("no live service token")
 				}
 				ok := w.writeCubby(i)
 				w.logf("cubby %d -> %v", i, ok)
@@ -333,8 +373,8 @@ func TestVerif_C04_Histories(t *testing.T) {
 			},
 			"renew": func(rt *rapid.T) {
 				i := pickAlive("tok")
-				if i < 0 {
-					rt.Skip("no live token")
+				if i < 0 || w.toks[i].batch {
+					rt.Skip("no live service token")
 				}
 				r := w.tc.req(logical.UpdateOperation, "auth/token/renew-self", w.toks[i].id, map[string]any{"increment": "30m"})
 				w.logf("renew %d -> %v", i, r)
@@ -345,6 +385,9 @@ func TestVerif_C04_Histories(t *testing.T) {
 				}
 				// mostly live tokens, sometimes an already revoked one (idempotence)
 				i := rapid.IntRange(0, len(w.toks)-1).Draw(rt, "tok")
+				if w.toks[i].batch {
+					i = w.toks[i].parent // a batch token cannot be revoked itself
+				}
 				kind := rapid.SampledFrom(c04RevokeKinds).Draw(rt, "kind")
 				if !w.toks[i].alive && (kind == "revoke-self" || kind == "revoke-orphan" || kind == "lease-revoke") {
 					kind = "revoke"
